@@ -70,7 +70,7 @@ PeekHeader(sch, cfg, inp, r) ==
   IF Numeric(ty) /\ h.size > 8 THEN [t |-> "err", r |-> r, e |-> DataErr("bad_data", pos, h.id, <<>>)]
   ELSE IF ~cfg.allowId /\ ~KnownId(sch, h.id) THEN [t |-> "err", r |-> r, e |-> DataErr("bad_id", pos, h.id, <<>>)]
   ELSE LET seed == ~cfg.allowHier /\ KnownId(sch, h.id) /\ ~r.docPath /\ AllIds(PathOf(sch, h.id))
-           r1 == IF seed THEN [r EXCEPT !.stack = Implied(PathOf(sch, h.id)), !.docPath = TRUE] ELSE r
+           r1 == IF seed THEN [r EXCEPT !.stack = Implied(PathOf(sch, h.id)) \o @, !.docPath = TRUE] ELSE r
        IN
   IF ~cfg.allowHier /\ KnownId(sch, h.id) /\ r1.docPath /\ ~HierOk(sch, r1.stack, h.id)
   THEN [t |-> "err", r |-> r1,
@@ -131,7 +131,7 @@ BufferLoop(sch, cfg, inp, r, id, pre, p, m) ==
   IF p > Len(r.queue) THEN
     LET r2 == ReadNext(sch, cfg, inp, r) IN
     IF Len(r2.queue) < p
-    THEN [r2 EXCEPT !.queue = @ \o <<EofErr(m.start, TRUE, id, FALSE, <<>>, FALSE, <<>>)>>]
+    THEN [r2 EXCEPT !.queue = SubSeq(@, 1, pre) \o <<EofErr(m.start, TRUE, id, FALSE, <<>>, FALSE, <<>>)>>]
     ELSE BufferLoop(sch, cfg, inp, r2, id, pre, p, m)
   ELSE LET q == r.queue[p] IN
     IF q.res = "err" THEN [r EXCEPT !.queue = SubSeq(@, 1, pre) \o <<q>>]
